@@ -168,3 +168,99 @@ func FuzzC16(f *testing.F) {
 		}
 	})
 }
+
+// FuzzC08: arbitrary query text against a fixed rich schema; the verdict must equal the reference
+// validator's (documents outside its domain are skipped by checkVerdict / the guards below).
+func FuzzC08(f *testing.F) {
+	for _, q := range c08Corpus {
+		f.Add(q)
+	}
+	for _, q := range c10Corpus {
+		f.Add(q)
+	}
+	for _, s := range repoSeeds() {
+		if len(s) < 300 {
+			f.Add(s)
+		}
+	}
+	f.Fuzz(func(t *testing.T, q string) {
+		if !utf8.ValidString(q) || len(q) > 600 || strings.Count(q, "...") > 12 || strings.Count(q, "{") > 40 {
+			return
+		}
+		// outside the generated domain of the reference (see TestC08's assumptions)
+		if strings.Contains(q, "subscription") && (strings.Contains(q, "@skip") || strings.Contains(q, "@include")) {
+			return
+		}
+		c := valCase{Schema: c08Schema, Query: q}
+		if fragmentHasVariableDefinitions(q) {
+			return
+		}
+		v, _, skip, _, _ := checkVerdict("C08", c)
+		if !skip && v != "" {
+			t.Fatalf("VIOLATION property=C08: %s\nquery: %q", v, q)
+		}
+	})
+}
+
+// fragmentHasVariableDefinitions: the document uses the experimental `fragment F($v: T) on ...` form.
+func fragmentHasVariableDefinitions(q string) bool {
+	r := refParseCase(valCase{Schema: c08Schema, Query: q})
+	if !r.ok {
+		return false
+	}
+	for _, f := range r.doc.Frags {
+		if len(f.Vars) > 0 {
+			return true
+		}
+	}
+	return false
+}
+
+// FuzzC09: links on arbitrary queries that pass validation against the fixed schema.
+func FuzzC09(f *testing.F) {
+	for _, q := range c08Corpus {
+		f.Add(q)
+	}
+	f.Fuzz(func(t *testing.T, q string) {
+		if !utf8.ValidString(q) || len(q) > 600 || strings.Count(q, "{") > 40 {
+			return
+		}
+		for _, mode := range []string{"", "walk", "0,5,13"} {
+			if v, _, _ := c09Eval(c09Case{valCase: valCase{Schema: c08Schema, Query: q}, Mode: mode}); v != "" {
+				t.Fatalf("VIOLATION property=C09: %s\nquery: %q", v, q)
+			}
+		}
+	})
+}
+
+func FuzzC13(f *testing.F) {
+	fuzzSeeds(f, false)
+	for _, s := range repoGraphQLFiles() {
+		if len(s) < 3000 {
+			f.Add(s)
+		}
+	}
+	cfgs := []fmtConfig{{DefaultInd: true}, {Indent: "", Comments: true, Compacted: true}, {Indent: " \t", Comments: true, NoDesc: true}}
+	f.Fuzz(func(t *testing.T, in string) {
+		if !utf8.ValidString(in) || len(in) > 2048 || strings.Count(in, "{") > 200 {
+			return
+		}
+		for _, cfg := range cfgs {
+			if v := c13DocEval(c13DocCase{Input: in, Config: cfg}); v != "" {
+				t.Fatalf("VIOLATION property=C13: %s\ninput: %q config: %+v", v, in, cfg)
+			}
+		}
+	})
+}
+
+func FuzzC19(f *testing.F) {
+	fuzzSeeds(f, false)
+	f.Fuzz(func(t *testing.T, in string) {
+		if !utf8.ValidString(in) || len(in) > 2048 || strings.Count(in, "{") > 200 {
+			return
+		}
+		if v, _ := c19Eval(in); v != "" {
+			t.Fatalf("VIOLATION property=C19: %s\ninput: %q", v, in)
+		}
+	})
+}
